@@ -336,7 +336,7 @@ func (b *raftBackend) IncrBy(key []byte, delta int64) (int64, error) {
 		return 0, err
 	}
 	var current int64
-	if val != nil && val.Found && len(val.Value) > 0 {
+	if val != nil && val.Found {
 		current, err = strconv.ParseInt(string(val.Value), 10, 64)
 		if err != nil {
 			return 0, errNotInteger
